@@ -178,3 +178,56 @@ UNITS.append(pad_unit("C12.verus.padding_zbus", "C12.verus", "zbus/src/utils.rs"
                           "padding_for_8_bytes": {"ensures": [("C12.verus.padding_for_8_bytes.lt_8", "r < 8"),
                                                               ("C12.verus.padding_for_8_bytes.aligned", "(value + r) % 8 == 0")]},
                       }))
+
+
+# ---------------------------------------------------------------------------------------------------------------
+# GVariant framing-offset width rule (C05): for_bare_container returns the MINIMAL width that can express the
+# container size including the offsets themselves -- for all lengths (unbounded; the loop has <= 4 iterations)
+# ---------------------------------------------------------------------------------------------------------------
+FOS_PRELUDE = """
+// Spec (GVariant specification, "framing offsets"): offsets are 1, 2, 4 or 8 bytes wide; the width is the
+// smallest one such that the whole container, offsets included, can be addressed.
+pub open spec fn width(s: FramingOffsetSize) -> int {
+    match s { FramingOffsetSize::U8 => 1, FramingOffsetSize::U16 => 2, FramingOffsetSize::U32 => 4, FramingOffsetSize::U64 => 8 }
+}
+pub open spec fn max_of(s: FramingOffsetSize) -> int {
+    match s { FramingOffsetSize::U8 => 0xff, FramingOffsetSize::U16 => 0xffff, FramingOffsetSize::U32 => 0xffff_ffff,
+              FramingOffsetSize::U64 => 0xffff_ffff_ffff_ffff }
+}
+pub open spec fn fits(len: int, n: int, s: FramingOffsetSize) -> bool { len + n * width(s) <= max_of(s) }
+pub open spec fn smaller_do_not_fit(len: int, n: int, s: FramingOffsetSize) -> bool {
+    &&& (width(s) > 1 ==> !fits(len, n, FramingOffsetSize::U8))
+    &&& (width(s) > 2 ==> !fits(len, n, FramingOffsetSize::U16))
+    &&& (width(s) > 4 ==> !fits(len, n, FramingOffsetSize::U32))
+}
+"""
+
+UNITS.append({
+    "id": "C05.verus.framing_offset_size", "props": ["C05"], "file": "zvariant/src/framing_offset_size.rs",
+    "cfg": {'target_pointer_width="32"': False},
+    "prelude": FOS_PRELUDE,
+    "items": [{"kind": "enum", "name": "FramingOffsetSize"},
+              {"kind": "impl", "name": "FramingOffsetSize", "only_fns": ["for_bare_container", "for_encoded_container", "max", "bump_up"]}],
+    "contracts": {
+        "max": {"ensures": [("C05.verus.max.eq_spec", "r as int == max_of(self)")]},
+        "bump_up": {"ensures": [("C05.verus.bump_up.next_width", "r is Some ==> width(r->Some_0) == 2 * width(self)"),
+                                ("C05.verus.bump_up.none_only_at_u64", "r is None <==> self is U64")]},
+        "for_bare_container": {
+            # the container must be addressable with 8-byte offsets at all (otherwise the real code panics by design)
+            "requires": ["container_len as int + 8 * (num_offsets as int) <= 0xffff_ffff_ffff_ffff"],
+            "ensures": [("C05.verus.for_bare_container.fits", "fits(container_len as int, num_offsets as int, r)"),
+                        ("C05.verus.for_bare_container.minimal", "smaller_do_not_fit(container_len as int, num_offsets as int, r)")],
+            "loops": {0: """            invariant
+                container_len as int + 8 * (num_offsets as int) <= 0xffff_ffff_ffff_ffff,
+                smaller_do_not_fit(container_len as int, num_offsets as int, offset_size), // @obl C05.verus.for_bare_container.minimal
+            decreases 8 - width(offset_size),"""},
+            "proof_before": [(r"if\s+container_len\s*\+", """            assert(offset_size as usize == width(offset_size));
+            assert(num_offsets * (offset_size as usize) <= num_offsets * 8) by(nonlinear_arith)
+                requires offset_size as usize <= 8, num_offsets >= 0;""")],
+        },
+        "for_encoded_container": {
+            "ensures": [("C05.verus.for_encoded_container.fits", "container_len as int <= max_of(r)"),
+                        ("C05.verus.for_encoded_container.minimal", "smaller_do_not_fit(container_len as int, 0, r)")]},
+    },
+    "fns": ["zvariant::framing_offset_size::FramingOffsetSize::{for_bare_container,for_encoded_container,max,bump_up}"],
+})
